@@ -579,6 +579,48 @@ func c04Exec(f []string) (ans string, alloc uint64) {
 		var lv, rp []string
 		alloc = c04Measure(func() { lv, rp, _, err = c2.VerifC04Receive(s, n) })
 		return fmt.Sprintf("%s leaves=%d replies=%d", c04Cls(err), len(lv), len(rp)), alloc
+	case "fragseq":
+		// a connection history of fragment packets (pktTok form) into ONE server-side Session: the
+		// stateful part of the fragment dispatcher (cluster.add / cluster.done across packets)
+		var id device.ID
+		id[0], id[3] = 5, 1
+		s := c2.VerifC04NewSession(id)
+		var outs []string
+		groups := 0
+		alloc = c04Measure(func() {
+			for _, tok := range f[1:] {
+				n := c04ParsePkt(tok)
+				if n == nil {
+					outs = append(outs, "bad-op")
+					continue
+				}
+				n.Device = id
+				sys := n.ID == c2.VerifC04SvDrop || n.ID == c2.VerifC04SvRegister
+				lv, rp, g, err := c2.VerifC04Receive(s, n)
+				groups = g
+				drop := false
+				for _, x := range rp {
+					if strings.HasPrefix(x, fmt.Sprintf("R:%d:", c2.VerifC04SvDrop)) {
+						drop = true
+					}
+				}
+				switch {
+				case err == c2.ErrInvalidPacketCount:
+					outs = append(outs, "err:count")
+				case err != nil:
+					outs = append(outs, "err:mismatch")
+				case sys:
+					outs = append(outs, "control")
+				case len(lv) > 0:
+					outs = append(outs, "deliver:"+strings.TrimPrefix(lv[len(lv)-1], "L:"))
+				case drop:
+					outs = append(outs, "drop")
+				default:
+					outs = append(outs, "stored")
+				}
+			}
+		})
+		return fmt.Sprintf("%s groups=%d held=%d", strings.Join(outs, " "), groups, s.VerifC04Held()), alloc
 	case "procmulti":
 		x, _ := strconv.Atoi(f[1])
 		o := f[2] == "1"
@@ -655,6 +697,25 @@ func c04Exec(f []string) (ans string, alloc uint64) {
 		return c04E2E(st, 1, c04Hex(f[2])), 0
 	}
 	return "bad-op", 0
+}
+
+// c04ParsePkt reads the pktTok form "id,job,flags,tags,devhex,payhex" (tags ignored: fragments carry none).
+func c04ParsePkt(tok string) *com.Packet {
+	p := strings.Split(tok, ",")
+	if len(p) != 6 {
+		return nil
+	}
+	i, e1 := strconv.ParseUint(p[0], 10, 8)
+	j, e2 := strconv.ParseUint(p[1], 10, 16)
+	fl, e3 := strconv.ParseUint(p[2], 10, 64)
+	if e1 != nil || e2 != nil || e3 != nil {
+		return nil
+	}
+	n := &com.Packet{ID: uint8(i), Job: uint16(j), Flags: com.Flag(fl)}
+	if b := c04Hex(p[5]); len(b) > 0 {
+		n.Chunk = *data.NewChunk(append([]byte(nil), b...))
+	}
+	return n
 }
 
 func c04Cls(err error) string {
